@@ -472,6 +472,11 @@ class Inliner:
             repl = None
             call, sink = None, None
             if isinstance(st, ast.Expr) and isinstance(st.value, ast.Call):
+                virt = self._devirtualise(st.value, mod, cls, host)
+                if virt is not None:
+                    out += virt
+                    changed = True
+                    continue
                 call, sink = st.value, ("discard",)
             elif isinstance(st, ast.Assign) and isinstance(st.value, ast.Call):
                 call, sink = st.value, ("assign", st.targets)
@@ -490,6 +495,60 @@ class Inliner:
             else:
                 out.append(st)
         return out, changed
+
+    def _devirtualise(self, call: ast.Call, mod, cls, host) -> Optional[List[ast.stmt]]:
+        """A statement `self._hook(args)` whose private method is defined for the host's class and overridden in one or two
+        subclasses is the template-method spelling of an isinstance dispatch:
+            if isinstance(self, Sub): <Sub._hook inlined>  else: <Base._hook inlined>"""
+        f = call.func
+        if not (isinstance(f, ast.Attribute) and isinstance(f.value, ast.Name) and f.value.id == "self" and cls is not None
+                and _is_private(f.attr)):
+            return None
+        if any(isinstance(a, ast.Starred) for a in call.args) or any(k.arg is None for k in call.keywords):
+            return None
+        defs = self.methods.get(f.attr, [])
+        if len(defs) < 2:
+            return None
+        bases = [d for d in defs if self._is_subclass(cls, d[1])]
+        subs = [d for d in defs if d[1] != cls and self._is_subclass(d[1], cls)]
+        if not bases or not (1 <= len(subs) <= 2):
+            return None
+        base = next((b for b in bases if all(self._is_subclass(b[1], o[1]) for o in bases)), None)
+        if base is None or any(a is not b and self._is_subclass(a[1], b[1]) for a in subs for b in subs):
+            return None
+        if any(d[2] is host for d in [base] + subs):
+            return None
+
+        def body_of(fn):
+            return [x for x in fn.body if not (isinstance(x, ast.Expr) and isinstance(x.value, ast.Constant)) and not isinstance(x, ast.Pass)]
+
+        def expand(fn):
+            if fn.decorator_list or (fn.args.args and fn.args.args[0].arg != "self"):
+                return None
+            if not body_of(fn):
+                return [ast.copy_location(ast.Pass(), call)]
+            if not self._eligible(fn, True):
+                return None
+            return self._expand(call, fn, f.value, ("discard",), fn.name, host)
+        alts = []
+        for d in subs + [base]:
+            e = expand(d[2])
+            if e is None:
+                return None
+            alts.append((d[1], e))
+        orelse = alts[-1][1]
+        for sub_cls, e in reversed(alts[:-1]):
+            test = ast.Call(func=ast.Name(id="isinstance", ctx=ast.Load()),
+                            args=[ast.Name(id="self", ctx=ast.Load()), ast.Name(id=sub_cls, ctx=ast.Load())], keywords=[])
+            orelse = [ast.copy_location(ast.If(test=test, body=e, orelse=orelse), call)]
+        marker = ast.copy_location(ast.Expr(value=ast.Constant(value=f"{MARKER}{f.attr}")), call)
+        res = [marker] + orelse
+        for x in res:
+            ast.fix_missing_locations(x)
+        self.inlined_names.add(f.attr)
+        self.stats["call_sites_inlined"] += 1
+        self.stats["dispatches_devirtualised"] = self.stats.get("dispatches_devirtualised", 0) + 1
+        return res
 
     def _call_counts(self) -> Dict[int, int]:
         counts: Dict[int, int] = {}
@@ -732,6 +791,22 @@ def propagate_condition_locals(fn: ast.FunctionDef) -> int:
     return done
 
 
+def splice_literal_stars(fn: ast.FunctionDef) -> int:
+    """`f(*(a, b))` is `f(a, b)` (what a loop over a table of argument tuples leaves behind when it is unrolled)"""
+    n_ = 0
+    for c in ast.walk(fn):
+        if isinstance(c, ast.Call) and any(isinstance(a, ast.Starred) and isinstance(a.value, (ast.Tuple, ast.List)) for a in c.args):
+            new = []
+            for a in c.args:
+                if isinstance(a, ast.Starred) and isinstance(a.value, (ast.Tuple, ast.List)):
+                    new.extend(a.value.elts)
+                    n_ += 1
+                else:
+                    new.append(a)
+            c.args = new
+    return n_
+
+
 def reduce_lambda_calls(fn: ast.FunctionDef) -> int:
     """`f = lambda x: E` ... `f(a)`  ->  `E[x := a]` when f is bound exactly once (what remains of a callback parameter
     after its helper was inlined)"""
@@ -760,6 +835,34 @@ def reduce_lambda_calls(fn: ast.FunctionDef) -> int:
             return c
     T().visit(fn)
     return done[0]
+
+
+def reduce_partial_calls(fn: ast.FunctionDef) -> int:
+    """`f = partial(g, a, k=v)` ... `f(b, m=w)`  ->  `g(a, b, k=v, m=w)` when f is bound exactly once and the frozen arguments
+    are plain (names, attributes, constants): a keyword given at the call replaces the frozen one, as partial() does"""
+    cnt = _bindings(fn)
+    par = {}
+    for n in _own_nodes(fn):
+        if isinstance(n, ast.Assign) and len(n.targets) == 1 and isinstance(n.targets[0], ast.Name) and isinstance(n.value, ast.Call) \
+                and ast.unparse(n.value.func) in ("partial", "functools.partial") and n.value.args and cnt.get(n.targets[0].id) == 1 \
+                and isinstance(n.value.args[0], (ast.Name, ast.Attribute)) \
+                and not any(isinstance(a, ast.Starred) for a in n.value.args) and all(k.arg for k in n.value.keywords) \
+                and all(_simple_arg(a) for a in n.value.args[1:]) and all(_simple_arg(k.value) for k in n.value.keywords):
+            par[n.targets[0].id] = n.value
+    if not par:
+        return 0
+    done = 0
+    for c in ast.walk(fn):
+        if isinstance(c, ast.Call) and isinstance(c.func, ast.Name) and c.func.id in par and \
+                not any(isinstance(a, ast.Starred) for a in c.args) and all(k.arg for k in c.keywords):
+            p = par[c.func.id]
+            given = {k.arg for k in c.keywords}
+            c.func = copy.deepcopy(p.args[0])
+            c.args = [copy.deepcopy(a) for a in p.args[1:]] + c.args
+            c.keywords = c.keywords + [copy.deepcopy(k) for k in p.keywords if k.arg not in given]
+            ast.fix_missing_locations(c)
+            done += 1
+    return done
 
 
 # ---------------------------------------------------------------------------------------------------------------------
@@ -1041,11 +1144,91 @@ def normalise_loops(fn: ast.FunctionDef) -> int:
                     t.ctx = ast.Store()
         return inner
 
+    def lower_reduce(st: ast.stmt) -> Optional[List[ast.stmt]]:
+        """`x = reduce(lambda acc, p: BODY, ITER, INIT)` is `x = INIT` followed by `for p in ITER: x = BODY[acc := x]`"""
+        if not (isinstance(st, ast.Assign) and len(st.targets) == 1 and isinstance(st.targets[0], ast.Name) and isinstance(st.value, ast.Call)
+                and ast.unparse(st.value.func) in ("reduce", "functools.reduce") and len(st.value.args) == 3 and not st.value.keywords):
+            return None
+        lam, it, init = st.value.args
+        if not (isinstance(lam, ast.Lambda) and len(lam.args.args) == 2 and not lam.args.defaults and not lam.args.vararg
+                and not lam.args.kwarg and not lam.args.kwonlyargs):
+            return None
+        x = st.targets[0].id
+        acc, p = lam.args.args[0].arg, lam.args.args[1].arg
+        used = {n.id for n in _own_nodes(fn) if isinstance(n, ast.Name)} | {a.arg for a in fn.args.args + fn.args.kwonlyargs}
+        if p in used or acc == p or any(isinstance(n, ast.Name) and n.id == x for n in ast.walk(lam.body)) or \
+                any(isinstance(n, (ast.Lambda, ast.NamedExpr)) for n in ast.walk(lam.body)) or \
+                any(isinstance(n, ast.Name) and n.id == x for n in ast.walk(it)):
+            return None
+        body = _Rename({}, {acc: ast.Name(id=x, ctx=ast.Load())}).visit(copy.deepcopy(lam.body))
+        first = ast.Assign(targets=[ast.Name(id=x, ctx=ast.Store())], value=copy.deepcopy(init))
+        step = ast.Assign(targets=[ast.Name(id=x, ctx=ast.Store())], value=body)
+        loop = ast.For(target=ast.Name(id=p, ctx=ast.Store()), iter=copy.deepcopy(it), body=[step], orelse=[], type_comment=None)
+        return [first, loop]
+
+    def lower_search(stmts: List[ast.stmt]) -> List[ast.stmt]:
+        """`x = next((E for v in IT if C), None)` + `if x is not None: BODY` (BODY leaves the function, x is not read anywhere else)
+        is the search loop `for v in IT: if C: x = E; BODY` - also with the walrus form `if (x := next(...)) is not None:`"""
+        nonlocal done
+        out: List[ast.stmt] = []
+        i = 0
+        while i < len(stmts):
+            st = stmts[i]
+            call = tgt = test_if = None
+            if isinstance(st, ast.Assign) and len(st.targets) == 1 and isinstance(st.targets[0], ast.Name) and i + 1 < len(stmts) \
+                    and isinstance(stmts[i + 1], ast.If):
+                call, tgt, test_if, skip = st.value, st.targets[0].id, stmts[i + 1], 2
+                t = test_if.test
+                if not (isinstance(t, ast.Compare) and len(t.ops) == 1 and isinstance(t.ops[0], ast.IsNot) and isinstance(t.left, ast.Name)
+                        and t.left.id == tgt and isinstance(t.comparators[0], ast.Constant) and t.comparators[0].value is None):
+                    call = None
+            elif isinstance(st, ast.If):
+                t = st.test
+                if isinstance(t, ast.Compare) and len(t.ops) == 1 and isinstance(t.ops[0], ast.IsNot) and isinstance(t.left, ast.NamedExpr) \
+                        and isinstance(t.comparators[0], ast.Constant) and t.comparators[0].value is None:
+                    call, tgt, test_if, skip = t.left.value, t.left.target.id, st, 1
+            ok = False
+            if call is not None and isinstance(call, ast.Call) and isinstance(call.func, ast.Name) and call.func.id == "next" \
+                    and len(call.args) == 2 and not call.keywords and isinstance(call.args[0], ast.GeneratorExp) \
+                    and len(call.args[0].generators) == 1 and not call.args[0].generators[0].is_async \
+                    and isinstance(call.args[1], ast.Constant) and call.args[1].value is None \
+                    and not test_if.orelse and test_if.body and isinstance(test_if.body[-1], (ast.Raise, ast.Return)):
+                gen = call.args[0].generators[0]
+                loads = sum(1 for n in _own_nodes(fn) if isinstance(n, ast.Name) and n.id == tgt and isinstance(n.ctx, ast.Load))
+                in_body = sum(1 for b in test_if.body for n in ast.walk(b) if isinstance(n, ast.Name) and n.id == tgt and isinstance(n.ctx, ast.Load))
+                in_test = sum(1 for n in ast.walk(test_if.test) if isinstance(n, ast.Name) and n.id == tgt and isinstance(n.ctx, ast.Load))
+                gvars = {n.id for n in ast.walk(gen.target) if isinstance(n, ast.Name)}
+                others = {n.id for n in _own_nodes(fn) if isinstance(n, ast.Name)} - gvars
+                inside_gen = {n.id for n in ast.walk(call.args[0]) if isinstance(n, ast.Name)}
+                clash = any(sum(1 for n in _own_nodes(fn) if isinstance(n, ast.Name) and n.id == g) !=
+                            sum(1 for n in ast.walk(call.args[0]) if isinstance(n, ast.Name) and n.id == g) for g in gvars)
+                if loads == in_body + in_test and not clash and tgt not in inside_gen:
+                    ok = True
+                    inner: List[ast.stmt] = [ast.Assign(targets=[ast.Name(id=tgt, ctx=ast.Store())], value=copy.deepcopy(call.args[0].elt))] + \
+                        list(test_if.body)
+                    if gen.ifs:
+                        cond = gen.ifs[0] if len(gen.ifs) == 1 else ast.BoolOp(op=ast.And(), values=list(gen.ifs))
+                        inner = [ast.If(test=copy.deepcopy(cond), body=inner, orelse=[])]
+                    loop = ast.For(target=copy.deepcopy(gen.target), iter=copy.deepcopy(gen.iter), body=inner, orelse=[], type_comment=None)
+                    for t_ in ast.walk(loop.target):
+                        if isinstance(t_, ast.Name):
+                            t_.ctx = ast.Store()
+                    ast.copy_location(loop, st)
+                    ast.fix_missing_locations(loop)
+                    out.append(loop)
+                    done += 1
+                    i += skip
+            if not ok:
+                out.append(st)
+                i += 1
+        return out
+
     def block2(stmts: List[ast.stmt]) -> List[ast.stmt]:
         nonlocal done
         res: List[ast.stmt] = []
+        stmts = lower_search(stmts)
         for st in stmts:
-            low = lower_comp(st)
+            low = lower_comp(st) or lower_reduce(st)
             if low is not None:
                 for x in low:
                     ast.copy_location(x, st)
@@ -1151,9 +1334,11 @@ def normalise(modules: Dict[str, ast.Module]) -> dict:
                       for t in st_.targets if isinstance(t, ast.Name)}
             for _cls, fn in Inliner._hosts(tree):
                 reduce_lambda_calls(fn)
+                reduce_partial_calls(fn)
                 u += unroll_constant_loops(fn, consts)
                 lp += normalise_loops(fn)
                 u += unroll_constant_loops(fn, consts)
+                splice_literal_stars(fn)
                 n += propagate_condition_locals(fn)
     st["conditions_propagated"] = n
     st["loops_unrolled"] = u
